@@ -50,6 +50,14 @@ def run(tier, seed, replay):
             sp = common.mk_spec(0, [cfg])
             sp["cfg"] = cfg
             bases.append(("normal-only-import:" + nm, sp))
+    for ty in ("\"fmt\".Stringer", "\"errors\".Unwrapper" if False else "\"os\".Signal", "*\"os\".File", "\"context\".Context", "\"reflect\".Type"):
+        for params in ({}, {"p": "%env(\"X\")%"}, {"p": "%todo()%", "q": "%envInt(\"N\", 1)%"}):
+            cfg = {"services": {"s": {"constructor": "NewA", "getter": "GetS", "type": ty, "must_getter": True}}}
+            if params:
+                cfg["parameters"] = dict(params)
+            sp = common.mk_spec(0, [cfg])
+            sp["cfg"] = cfg
+            bases.append(("helper-package-type", sp))
     for g in ("clock", "getDB", "x", "GetX", "g_1"):
         cfg = {"services": {"s": {"constructor": "NewA", "getter": g, "must_getter": True, "type": "*T"}, "t": {"value": "Value", "getter": "Other" + g, "type": "T"}}}
         sp = common.mk_spec(0, [cfg])
